@@ -4,6 +4,7 @@ CONSTANTS
   Fixed = TRUE
   AllowForeignClose = TRUE
   AllowCancel = TRUE
+  AllowStall = TRUE
 CONSTRAINT HW
 INVARIANT PacketBoundary
 INVARIANT NoStaleOutput
